@@ -178,22 +178,36 @@ def stepAccs (ext : Ext) (defs : List (String Ã— AggDef)) (accs : List (String Ã
     | .unmodelled w => .unmodelled w
     | .panic p => .panic p)
 
+/-- insert-or-update of one group (`state.entry(key).or_insert_with(..)` then feed the row) -/
+def groupUpd (ext : Ext) (defs : List (String Ã— AggDef)) (row : Fields) (key : List Value) :
+    GroupState â†’ Outcome GroupState
+  | [] =>
+    match stepAccs ext defs (defs.map (fun nd => (nd.1, nd.2.empty))) row with
+    | .ok accs => .ok [(key, accs)]
+    | .err k => .err k
+    | .panic p => .panic p
+    | .unmodelled w => .unmodelled w
+  | (k, accs) :: rest =>
+    if keyEq k key then
+      match stepAccs ext defs accs row with
+      | .ok accs' => .ok ((k, accs') :: rest)
+      | .err e => .err e
+      | .panic p => .panic p
+      | .unmodelled w => .unmodelled w
+    else
+      match groupUpd ext defs row key rest with
+      | .ok rest' => .ok ((k, accs) :: rest')
+      | .err e => .err e
+      | .panic p => .panic p
+      | .unmodelled w => .unmodelled w
+
 /-- `MultiGrouper::process_map` -/
-def Grouper.processRow (ext : Ext) (g : Grouper) (st : GroupState) (row : Fields) : Outcome GroupState := do
-  let key â† g.keyOf ext row
-  let defs := g.accNames
-  let rec upd : GroupState â†’ Outcome GroupState
-    | [] => do
-      let accs â† stepAccs ext defs (defs.map (fun nd => (nd.1, nd.2.empty))) row
-      pure [(key, accs)]
-    | (k, accs) :: rest =>
-      if keyEq k key then do
-        let accs' â† stepAccs ext defs accs row
-        pure ((k, accs') :: rest)
-      else do
-        let rest' â† upd rest
-        pure ((k, accs) :: rest')
-  upd st
+def Grouper.processRow (ext : Ext) (g : Grouper) (st : GroupState) (row : Fields) : Outcome GroupState :=
+  match g.keyOf ext row with
+  | .ok key => groupUpd ext g.accNames row key st
+  | .err e => .err e
+  | .panic p => .panic p
+  | .unmodelled w => .unmodelled w
 
 /-- `MultiGrouper::emit`.  Rows come out in first-seen order here; the real code iterates a
 `HashMap` (HASH ORDER) â€” callers must not depend on the row order of this table. -/
